@@ -6,8 +6,8 @@ _QUICK = "{0,3,0,3,0,2},{0,2,4,3,0,1},{0,2,0,3,1,1},{1,3,2,3,0,1},{2,3,2,3,0,1}"
 _THOROUGH = "{0,3,0,4,0,1},{0,2,7,3,0,1},{0,1,8,4,0,1},{0,2,0,4,1,1},{1,4,5,3,0,2},{2,4,5,3,0,2}"
 reg("C11",
     name="C11_reduce", src="harness/C11_reduce.cpp", anchor_files=_ANCH,
-    quick=dict(defs=dict(CONFIGS=_QUICK, TSLN=5, ZMODES=3), symx=dict(shards=16, **{"max-wall": 900})),
-    thorough=dict(defs=dict(CONFIGS=_THOROUGH, TSLN=9, ZMODES=3), symx=dict(shards=16, **{"max-wall": 3000, "shard-depth": 8})),
+    quick=dict(defs=dict(CONFIGS=_QUICK, TSLN=5, ZMODES=3), symx=dict(shards=16, **{"max-wall": 900, "query-timeout-ms": 120000})),
+    thorough=dict(defs=dict(CONFIGS=_THOROUGH, TSLN=9, ZMODES=3), symx=dict(shards=16, **{"max-wall": 3000, "shard-depth": 8, "query-timeout-ms": 120000})),
     reach=["end", "key_removed", "removed_while_lower_key_live", "key_removed_and_readded_same_cycle", "shrunk_to_empty", "regrown_after_empty",
            "three_live", "five_live", "singleton_with_zero", "empty_again_with_zero", "phantom_key"],
     bounds="wire_reduce_tsd -> reduce_node with a wrapping-add combiner sub-graph; every element value and every zero value an unconstrained symbolic int64; "
